@@ -25,14 +25,14 @@ Proof. reflexivity. Qed.
 (* ---------------------------------------------------------------- values *)
 Lemma str_nonempty_sv : forall v, str_nonempty (sv v) = str_nonempty v.
 Proof.
-  fix IH 1. intros [| | | | |r ps|r x|cls p e attrs|l]; simpl; try reflexivity.
+  fix IH 1. intros [| | | | |r ps|r x|cls p e attrs|nm p cl|l]; simpl; try reflexivity.
   - induction ps as [|x ps IHp]; simpl; [reflexivity|]. rewrite IH, IHp. reflexivity.
   - apply IH.
 Qed.
 
 Lemma val_truthy_sv : forall v, val_truthy (sv v) = val_truthy v.
 Proof.
-  fix IH 1. intros [| | | | |r ps|r x|cls p e attrs|l]; simpl; try reflexivity.
+  fix IH 1. intros [| | | | |r ps|r x|cls p e attrs|nm p cl|l]; simpl; try reflexivity.
   - induction ps as [|x ps IHp]; simpl; [reflexivity|]. rewrite str_nonempty_sv, IHp. reflexivity.
   - apply IH.
   - destruct l; reflexivity.
@@ -57,7 +57,7 @@ Proof. unfold cur_set, shift_cur. simpl. rewrite set_val_shift. reflexivity. Qed
 
 Lemma name_ok_shift l : name_ok (shift_vals l) = name_ok l.
 Proof.
-  unfold name_ok. rewrite get_val_shift. destruct (get_val s_name l) as [[| | | | | | | |[|x vs]]|]; reflexivity.
+  unfold name_ok. rewrite get_val_shift. destruct (get_val s_name l) as [[| | | | | | | | |[|x vs]]|]; reflexivity.
 Qed.
 
 Lemma many_ok_shift meta l : many_ok meta (shift_vals l) = many_ok meta l.
@@ -107,16 +107,18 @@ Proof.
     rewrite E1, E2. reflexivity.
 Qed.
 
-Lemma fits_T nid p len s : fits k (T nid p len s) = true -> 0 < len /\ (p + len <= k \/ k <= p).
+Lemma fits_T nid p len s : fits k (T nid p len s) = true -> ~ (len = 0 /\ p = k) /\ (p + len <= k \/ k <= p).
 Proof.
-  simpl. intro H. apply andb_true_iff in H as [H1 H2]. apply Nat.ltb_lt in H1. split; [exact H1|].
-  apply orb_true_iff in H2 as [H2|H2]; [right; apply Nat.leb_le, H2 | left; apply Nat.leb_le, H2].
+  simpl. intro H. apply andb_true_iff in H as [H2 H1]. apply negb_true_iff in H1. split.
+  - intros [-> ->]. rewrite !Nat.eqb_refl in H1. discriminate.
+  - apply orb_true_iff in H2 as [H2|H2]; [right; apply Nat.leb_le, H2 | left; apply Nat.leb_le, H2].
 Qed.
 
-Lemma fits_NT nid kids : fits k (NT nid kids) = true -> kids <> [] /\ Forall (fun x => fits k x = true) kids.
+Lemma fits_NT nid kids : fits k (NT nid kids) = true -> (kids <> [] \/ 0 < k) /\ Forall (fun x => fits k x = true) kids.
 Proof.
-  simpl. intro H. apply andb_true_iff in H as [H1 H2]. split; [destruct kids; [discriminate | discriminate]|].
-  apply Forall_forall. rewrite forallb_forall in H2. exact H2.
+  simpl. intro H. apply andb_true_iff in H as [H1 H2]. split.
+  - apply orb_true_iff in H1 as [H1|H1]; [left; destruct kids; discriminate | right; apply Nat.ltb_lt, H1].
+  - apply Forall_forall. rewrite forallb_forall in H2. exact H2.
 Qed.
 
 Lemma tpos_sht : forall t, fits k t = true -> tpos (sht t) = ph (tpos t).
@@ -124,7 +126,9 @@ Proof.
   apply (tree_ind2 (fun t => fits k t = true -> tpos (sht t) = ph (tpos t))).
   - reflexivity.
   - intros nid kids IH Hf. destruct (fits_NT _ _ Hf) as [Hne Hall].
-    destruct kids as [|x kids]; [contradiction|]. simpl. inversion IH; subst. inversion Hall; subst. auto.
+    destruct kids as [|x kids].
+    + destruct Hne as [Hne|Hk]; [contradiction|]. simpl. unfold phi. destruct (Nat.ltb_spec 0 k); [reflexivity | lia].
+    + simpl. inversion IH; subst. inversion Hall; subst. auto.
 Qed.
 
 Lemma tend_sht : forall t, fits k t = true -> tend (sht t) = phe (tend t).
@@ -133,7 +137,7 @@ Proof.
   - intros nid p len s Hf. destruct (fits_T _ _ _ _ Hf) as [Hl Hp]. simpl. unfold phi, phie.
     destruct (Nat.ltb_spec p k), (Nat.leb_spec (p + len) k); lia.
   - intros nid kids IH Hf. destruct (fits_NT _ _ Hf) as [Hne Hall].
-    destruct kids as [|x kids]; [contradiction|]. clear Hne Hf.
+    destruct kids as [|x kids]; [reflexivity|]. clear Hne Hf.
     revert x IH Hall. induction kids as [|y kids IHk]; intros x IH Hall.
     + rewrite tend_single. change (sht (NT nid [x])) with (NT nid [sht x]). rewrite tend_single.
       inversion IH; subst. inversion Hall; subst. auto.
@@ -167,7 +171,7 @@ Proof.
   - intros nid kids IH Hf. destruct (fits_NT _ _ Hf) as [Hne Hall].
     change (sht (NT nid kids)) with (NT nid (map sht kids)). cbn [pmatch].
     destruct (is_base5 (rule_of g nid)); [reflexivity|].
-    destruct kids as [|x rest]; [contradiction|]. cbn [map].
+    destruct kids as [|x rest]; [reflexivity|]. cbn [map].
     inversion IH as [|x0 l0 IHx IHrest]; subst. inversion Hall as [|x1 l1 Hx Hrest]; subst.
     destruct rest as [|y rest].
     + cbn [map]. rewrite (IHx Hx). destruct (pmatch g s0 x); reflexivity.
@@ -212,15 +216,19 @@ Qed.
 Lemma is_sep_of_sht asg t : is_sep_of g asg (sht t) = is_sep_of g asg t.
 Proof. unfold is_sep_of. rewrite tree_nid_sht. reflexivity. Qed.
 
-Lemma lst_loop_sht asg at_ is_ref l : Forall Pt l -> Forall (fun t => fits k t = true) l -> forall top,
-  lst_loop pn' (is_sep_of g asg) at_ is_ref (map sht l) (stop top) =
-  map_bres stop (lst_loop pn (is_sep_of g asg) at_ is_ref l top).
+Lemma lst_loop_sht asg at_ refcls l : Forall Pt l -> Forall (fun t => fits k t = true) l -> forall top,
+  lst_loop pn' (is_sep_of g asg) at_ refcls (map sht l) (stop top) =
+  map_bres stop (lst_loop pn (is_sep_of g asg) at_ refcls l top).
 Proof.
   induction l as [|x l IH]; intros HP HF top; [reflexivity|]. inversion HP; subst. inversion HF; subst.
   cbn [map lst_loop]. rewrite is_sep_of_sht. destruct (is_sep_of g asg x); [apply IH; assumption|].
-  rewrite (H1 H3 top). destruct (pn x top) as [[v top1]|e]; [|reflexivity]. simpl.
-  destruct is_ref; [reflexivity|]. destruct top1 as [c1|]; [|reflexivity]. simpl.
-  rewrite get_val_shift. destruct (get_val at_ (c_vals c1)) as [[| | | | | | | |vs]|]; try reflexivity; simpl.
+  rewrite (H1 H3 top). destruct (pn x top) as [[v0 top1]|e]; [|reflexivity]. simpl.
+  rewrite (tpos_sht x H3).
+  set (v := match refcls with Some cl => VRef v0 (tpos x) cl | None => v0 end).
+  replace (match refcls with Some cl => VRef (sv v0) (ph (tpos x)) cl | None => sv v0 end) with (sv v)
+    by (unfold v; destruct refcls; reflexivity).
+  destruct top1 as [c1|]; [|reflexivity]. simpl.
+  rewrite get_val_shift. destruct (get_val at_ (c_vals c1)) as [[| | | | | | | | |vs]|]; try reflexivity; simpl.
   - change (VList [sv v]) with (sv (VList [v])). rewrite cur_set_shift. apply (IH H2 H4 (Some _)).
   - change (VList (map sv vs ++ [sv v])) with (VList (map sv vs ++ map sv [v])). rewrite <- map_app.
     change (VList (map sv (vs ++ [v]))) with (sv (VList (vs ++ [v]))). rewrite cur_set_shift. apply (IH H2 H4 (Some _)).
@@ -274,21 +282,24 @@ Proof.
       * (* = *)
         rewrite get_val_shift. destruct (get_val at_ (c_vals c)) as [av|]; [|reflexivity]. simpl option_map.
         cbv beta iota. rewrite val_truthy_sv, is_vlist_sv. destruct (val_truthy av && negb (is_vlist av))%bool; [reflexivity|].
-        destruct kids as [|x rest]; [contradiction|]. cbn [map].
+        destruct kids as [|x rest]; [reflexivity|]. cbn [map].
         inversion IH; subst. inversion Hall; subst.
         change (Some (shift_cur k n c)) with (stop (Some c)). rewrite (H1 H3 (Some c)).
-        destruct (pn x (Some c)) as [[v top1]|e]; [|reflexivity]. simpl.
-        destruct (a_ref ma && negb (a_cont ma))%bool; [reflexivity|].
+        destruct (pn x (Some c)) as [[v0 top1]|e]; [|reflexivity]. simpl.
+        rewrite (tpos_sht x H3).
+        set (v := if (a_ref ma && negb (a_cont ma))%bool then VRef v0 (tpos x) (a_cls ma) else v0).
+        replace (if (a_ref ma && negb (a_cont ma))%bool then VRef (sv v0) (ph (tpos x)) (a_cls ma) else sv v0) with (sv v)
+          by (unfold v; destruct (a_ref ma && negb (a_cont ma))%bool; reflexivity).
         destruct top1 as [c1|]; [|reflexivity]. simpl.
-        destruct av as [| | | | | | | |l]; simpl; try (rewrite cur_set_shift; reflexivity).
+        destruct av as [| | | | | | | | |l]; simpl; try (rewrite cur_set_shift; reflexivity).
         change (VList (map sv l ++ [sv v])) with (VList (map sv l ++ map sv [v])). rewrite <- map_app.
         change (VList (map sv (l ++ [v]))) with (sv (VList (l ++ [v]))). rewrite cur_set_shift. reflexivity.
       * (* ?= *)
         simpl. change (VBool true) with (sv (VBool true)). rewrite cur_set_shift. reflexivity.
       * (* += *= *)
         change (Some (shift_cur k n c)) with (stop (Some c)).
-        rewrite (lst_loop_sht nid at_ (a_ref ma && negb (a_cont ma))%bool kids IH Hall (Some c)).
-        destruct (lst_loop pn (is_sep_of g nid) at_ (a_ref ma && negb (a_cont ma))%bool kids (Some c)); reflexivity.
+        rewrite (lst_loop_sht nid at_ (if (a_ref ma && negb (a_cont ma))%bool then Some (a_cls ma) else None) kids IH Hall (Some c)).
+        destruct (lst_loop pn (is_sep_of g nid) at_ (if (a_ref ma && negb (a_cont ma))%bool then Some (a_cls ma) else None) kids (Some c)); reflexivity.
     + destruct rk.
       * (* common rule *)
         set (t := NT nid kids) in *.
@@ -303,7 +314,7 @@ Proof.
         simpl. rewrite name_ok_shift, many_ok_shift.
         destruct (name_ok (c_vals c1)); [|reflexivity]. destruct (many_ok (c_meta c1) (c_vals c1)); reflexivity.
       * (* abstract rule *)
-        destruct kids as [|x rest]; [contradiction|].
+        destruct kids as [|x rest]; [reflexivity|].
         destruct rest as [|y rest].
         -- cbn [map]. inversion IH; subst. inversion Hall; subst. apply (H1 H3 top).
         -- change (map sht (x :: y :: rest)) with (sht x :: sht y :: map sht rest).
@@ -333,10 +344,11 @@ End Trees.
 (* ---------------------------------------------------------------- apart from positions *)
 Lemma erase_shift k n : forall v, erase_val (shift_val k n v) = erase_val v.
 Proof.
-  fix IH 1. intros [| | | | |r ps|r x|cls p e attrs|l]; simpl; try reflexivity.
+  fix IH 1. intros [| | | | |r ps|r x|cls p e attrs|nm p cl|l]; simpl; try reflexivity.
   - f_equal. induction ps as [|x ps IHp]; simpl; [reflexivity|]. rewrite IH, IHp. reflexivity.
   - f_equal. apply IH.
   - f_equal. induction attrs as [|[a0 x] attrs IHa]; simpl; [reflexivity|]. rewrite IH, IHa. reflexivity.
+  - f_equal. apply IH.
   - f_equal. induction l as [|x l IHl]; simpl; [reflexivity|]. rewrite IH, IHl. reflexivity.
 Qed.
 
